@@ -14,6 +14,12 @@ BIN_UNIVERSES = {
     "B6": ["00", "01", "80", "0000", "0080", "ff"],
     "B10": ["00", "01", "80", "0000", "0001", "0080", "0180", "ff", "8000", "0101"],
     "B4L": ["12345678", "12345679", "123456ff", "92345678", "1234"],
+    # keys sharing more than 64 bits of prefix, one of them a prefix of the others, one diverging at the first bit
+    "BLK": ["11" * 9 + "00", "11" * 9 + "01", "11" * 8 + "80", "11" * 8, "22"],
+    # a comb: the path of 00 has a node at every bit
+    "BC": ["00", "80", "40", "20", "10", "08", "04", "02", "01"],
+    # keys longer than 32 bytes (kv nodes with a key path of more than 256 bits)
+    "BXL": ["33" * 33, "33" * 32 + "34", "44" * 40],
 }
 BIN_PROBES = ["000000", "40", "0100", "ffff", "02", "fe", "008000"]
 BIN_VALUES = {"a": b"a", "bb": b"bb", "c33": b"c" * 33}
